@@ -14,6 +14,7 @@ import JumanjiModel.Env.MMST.ObsLemmas
 import JumanjiModel.Env.MMST.Illegal
 import JumanjiModel.Env.MMST.Solvable
 import JumanjiModel.Env.MMST.GenTheorems
+import JumanjiModel.Env.MMST.Spec
 open Jm MMST
 
 namespace Props.MMSTEx
@@ -622,4 +623,113 @@ example : BInv Props.MMSTEx.cfg Props.MMSTEx.st ∧ BInv Props.MMSTEx.cfg Props.
     Feasible Props.MMSTEx.cfg Props.MMSTEx.st ∧ certBinary Props.MMSTEx.st = true := by decide +kernel
 /-- the upper bound of `node_types` is attained (an unconnected node of the last agent shows `2·1 + 1 = 3 = 2A - 1`) -/
 example : (observeL1 Props.MMSTEx.cfg Props.MMSTEx.st).nodeTypes = [0, 1, -1, 2, 3] := by decide +kernel
+/-! #### (wave 4) membership in the DECLARED specs: structure, shapes, dtypes and bounds -/
+open Sp PzS PkS
+
+/-- the catalogue configuration `mmst-small`: MMST(SplitRandomGenerator(num_nodes=12, …, num_agents=2,
+num_nodes_per_agent=3), time_limit=9) -/
+def mmstSmall : Cfg := { numAgents := 2, numNodes := 12, numNodesPerAgent := 3, timeLimit := 9, rConn := 10, rStep := -1, rNoop := -1 }
+
+/-- the model's `obsSpec` / `actionSpec` / reward and discount specs ARE the specs generated from the real spec objects
+(Gen/Specs.lean) for the catalogue configuration `mmst-small`: fields `node_types`, `adj_matrix`, `positions`, `step_count`,
+`action_mask` in this order; shapes `(N,)`, `(N, N)`, `(A,)`, `()`, `(A, N)`; dtypes int32 ×4, bool; bounds `[-1, 2A-1]`,
+`[0, 1]`, `[-1, N-1]`, `[0, time_limit]`, `[False, True]`.  (All leaves are in the generated table; every other adapter
+configuration is compared at run time by the `mmst.spec` op.) -/
+theorem mmst_obsSpec_generated :
+    prefixed "observation_spec." (obsSpec mmstSmall) = declared "mmst-small" "observation_spec." ∧
+    [("action_spec", actionSpec mmstSmall)] = declared "mmst-small" "action_spec" ∧
+    [("reward_spec", rewardSpec)] = declared "mmst-small" "reward_spec" ∧
+    [("discount_spec", discountSpec)] = declared "mmst-small" "discount_spec" := by
+  refine ⟨by decide, by decide, by decide, by decide⟩
+
+/-- the invariant behind the membership theorems — configured array shapes (`Shaped`), value ranges (`BInv`: positions in
+`[0, N)`, edge tables in `[-1, N)`, 0/1 adjacency matrix), a mask of shape `(A, N)` and a non-negative counter — holds for
+every feasible state with a 0/1 adjacency matrix, in particular for EVERY state the generator produces (`generate`: any
+valid draw of the agents' nodes, any graph satisfying `graphOK` with 0/1 entries), and is preserved by EVERY step: any joint
+action (any list of integers, in the action space or not, legal or not), any draw (a valid permutation or not), MID or LAST -/
+theorem mmst_specInv_invariant (cfg : Cfg) :
+    (∀ s, Feasible cfg s → certBinary s = true → Rect2 s.actionMask cfg.numAgents cfg.numNodes → 0 ≤ s.stepCount →
+      SpecInv cfg s) ∧
+    (∀ d, validGenDraw cfg d → graphOK cfg d → (∀ r ∈ d.adj, ∀ x ∈ r, x = 0 ∨ x = 1) → 1 ≤ cfg.numNodesPerAgent →
+      1 ≤ cfg.timeLimit → SpecInv cfg (generate cfg d)) ∧
+    (∀ (s : State) (a : List Int) (p : List Nat), SpecInv cfg s → SpecInv cfg (step cfg s a p).1) :=
+  ⟨fun _ hF hb hm h0 => MMST.specInv_of_feasible hF hb hm h0,
+   fun _ hv hg hb hK hT => MMST.generate_specInv hv hg hb hK hT,
+   fun _ a p h => MMST.step_specInv h a p⟩
+
+/-- the `reset` observation of every state with the invariant and counter 0 is accepted by `observation_spec.validate`,
+all sizes with at least one agent and one node … -/
+theorem mmst_reset_obs_valid (cfg : Cfg) (hA : 0 < cfg.numAgents) (hN : 0 < cfg.numNodes) (s : State)
+    (h : SpecInv cfg s) (hs : s.stepCount = 0) : (obsSpec cfg).valid (toNValue (reset cfg s).2.obs) = true :=
+  MMST.reset_obs_valid cfg hA hN s h hs
+
+/-- … in particular for EVERY draw of the generator: the reset observation of `reset (generate cfg d)` is a member -/
+theorem mmst_reset_obs_valid_generated (cfg : Cfg) (hA : 0 < cfg.numAgents) (hN : 0 < cfg.numNodes) (d : GenDraw)
+    (hv : validGenDraw cfg d) (hg : graphOK cfg d) (hb : ∀ r ∈ d.adj, ∀ x ∈ r, x = 0 ∨ x = 1)
+    (hK : 1 ≤ cfg.numNodesPerAgent) (hT : 1 ≤ cfg.timeLimit) :
+    (obsSpec cfg).valid (toNValue (reset cfg (generate cfg d)).2.obs) = true :=
+  MMST.reset_obs_valid cfg hA hN _ (MMST.generate_specInv hv hg hb hK hT) (by simp [generate])
+
+/-- the observation of EVERY `step` — any joint action (in the action space or not, legal or not), every draw, MID or
+LAST — from every state with the invariant whose counter has not reached the limit (the step that reaches `time_limit`
+included: the declared maximum of `step_count` is `time_limit`, inclusive) -/
+theorem mmst_step_obs_valid (cfg : Cfg) (hA : 0 < cfg.numAgents) (hN : 0 < cfg.numNodes) (s : State)
+    (h : SpecInv cfg s) (hlim : s.stepCount < (cfg.timeLimit : Int)) (a : List Int) (p : List Nat) :
+    (obsSpec cfg).valid (toNValue (step cfg s a p).2.obs) = true := MMST.step_obs_valid cfg hA hN s h hlim a p
+
+/-- WHOLE EPISODES: along the rollout (`Ep.rollout` = the L1 step iterated) of ANY joint actions and draws from a reset
+state, every observation emitted by one of the first `time_limit` steps is a member of the spec; the first LAST timestep is
+among them (`mmst_time_limit`: step number `time_limit` is LAST at the latest) -/
+theorem mmst_rollout_obs_valid (cfg : Cfg) (hA : 0 < cfg.numAgents) (hN : 0 < cfg.numNodes) (s0 : State)
+    (h0 : SpecInv cfg s0) (hs0 : s0.stepCount = 0) (as : List (List Int × List Nat)) (j : Nat) (hj : j < cfg.timeLimit)
+    (e : State × TimeStep Obs)
+    (he : (Ep.rollout (fun s (a : List Int × List Nat) => step cfg s a.1 a.2) s0 as)[j]? = some e) :
+    (obsSpec cfg).valid (toNValue e.2.obs) = true := MMST.rollout_obs_valid cfg hA hN s0 h0 hs0 as j hj e he
+
+/-- what membership means (so the theorems above are not hollow): `validate` accepts an observation ONLY IF the arrays have
+the declared shapes, the labels lie in `[-1, 2A-1]`, the matrix is 0/1, the positions lie in `[-1, N-1]` and the counter in
+`[0, time_limit]` -/
+theorem mmst_obs_valid_only (cfg : Cfg) (o : Obs) (h : (obsSpec cfg).valid (toNValue o) = true) :
+    o.nodeTypes.length = cfg.numNodes ∧ (∀ v ∈ o.nodeTypes, -1 ≤ v ∧ v ≤ 2 * (cfg.numAgents : Int) - 1) ∧
+    shape2 o.adj = [cfg.numNodes, cfg.numNodes] ∧ (∀ v ∈ o.adj.flatten, 0 ≤ v ∧ v ≤ 1) ∧
+    o.positions.length = cfg.numAgents ∧ (∀ v ∈ o.positions, -1 ≤ v ∧ v ≤ (cfg.numNodes : Int) - 1) ∧
+    0 ≤ o.stepCount ∧ o.stepCount ≤ (cfg.timeLimit : Int) ∧
+    shape2 o.actionMask = [cfg.numAgents, cfg.numNodes] := MMST.obs_valid_only cfg o h
+
+/-- the running example (5 nodes, 2 agents) satisfies the invariant at the start and after a step; its reset observation
+is a member, and membership fails for a counter beyond the limit, a label beyond `2A - 1`, and under another size -/
+example : SpecInv Props.MMSTEx.cfg Props.MMSTEx.st ∧ SpecInv Props.MMSTEx.cfg Props.MMSTEx.st1 ∧
+    (obsSpec Props.MMSTEx.cfg).valid (toNValue (reset Props.MMSTEx.cfg Props.MMSTEx.st).2.obs) = true ∧
+    (obsSpec Props.MMSTEx.cfg).valid (toNValue { (reset Props.MMSTEx.cfg Props.MMSTEx.st).2.obs with stepCount := 7 }) = false ∧
+    (obsSpec Props.MMSTEx.cfg).valid
+      (toNValue { (reset Props.MMSTEx.cfg Props.MMSTEx.st).2.obs with nodeTypes := [0, 1, -1, 2, 4] }) = false ∧
+    (obsSpec { Props.MMSTEx.cfg with numNodes := 6 }).valid (toNValue (reset Props.MMSTEx.cfg Props.MMSTEx.st).2.obs) = false := by
+  decide +kernel
+
+/-- reward and discount of every `step` (ALL states, ALL joint actions, all draws) and of `reset` are accepted by
+`reward_spec` (Array((), float)) and `discount_spec` (BoundedArray((), float, 0, 1)) -/
+theorem mmst_reward_discount_valid (cfg : Cfg) (s : State) (a : List Int) (p : List Nat) :
+    rewardSpec.valid (scalarArr (step cfg s a p).2.reward) = true ∧
+    discountSpec.valid (scalarArr (step cfg s a p).2.discount) = true ∧
+    rewardSpec.valid (scalarArr (reset cfg s).2.reward) = true ∧
+    discountSpec.valid (scalarArr (reset cfg s).2.discount) = true :=
+  ⟨(MMST.step_reward_discount_valid cfg s a p).1, (MMST.step_reward_discount_valid cfg s a p).2,
+   (MMST.reset_reward_discount_valid cfg s).1, (MMST.reset_reward_discount_valid cfg s).2⟩
+
+/-- `action_spec.generate_value()` = all zeros: the action spec is well-formed, the generated value is a member, and `step`
+answers it from every state with the invariant (counter below the limit), for every draw, with a protocol-conform timestep
+whose observation is a member of the observation spec -/
+theorem mmst_accepts_generate_value (cfg : Cfg) (hA : 0 < cfg.numAgents) (hN : 0 < cfg.numNodes)
+    (hbig : cfg.numNodes ≤ 2147483648) (s : State) (h : SpecInv cfg s) (hlim : s.stepCount < (cfg.timeLimit : Int))
+    (p : List Nat) :
+    (actionSpec cfg).WF = true ∧ (actionSpec cfg).valid (actionSpec cfg).generate = true ∧
+    (actionSpec cfg).generate = actionArr cfg (List.replicate cfg.numAgents 0) ∧
+    StepOK none false (step cfg s (List.replicate cfg.numAgents 0) p).2 = true ∧
+    (obsSpec cfg).valid (toNValue (step cfg s (List.replicate cfg.numAgents 0) p).2.obs) = true :=
+  MMST.accepts_generate_value cfg hA hN hbig s h hlim p
+
+/-- membership in `action_spec` is exactly "one node index in `[0, N)` per agent" -/
+theorem mmst_action_spec_iff (cfg : Cfg) (a : List Int) :
+    (actionSpec cfg).valid (actionArr cfg a) = true ↔
+      a.length = cfg.numAgents ∧ ∀ x ∈ a, 0 ≤ x ∧ x < (cfg.numNodes : Int) := MMST.actionSpec_valid_iff cfg a
 end Props.C01
